@@ -5275,6 +5275,31 @@ impl M2Model {
 
         // Create the new model
         let mut new_model = self.clone();
+
+        // Embedded skin profiles (version <= 263) keep their submeshes as raw records whose size depends on
+        // the version: 32 bytes before TBC (8 x u16, center xyz, radius), 48 bytes from TBC on (8 x u16,
+        // bone_influence, padding, center xyz, sort center xyz, radius). Re-encode them when the conversion
+        // crosses that boundary, with the same field mapping SkinSubmesh::parse_vanilla uses.
+        let source_sub = if self.header.version < 260 { 32 } else { 48 };
+        let target_sub = if header.version < 260 { 32 } else { 48 };
+        if source_sub != target_sub && self.header.version <= 263 && header.version <= 263 {
+            for skin in &mut new_model.raw_data.embedded_skins {
+                let mut recoded = Vec::with_capacity(skin.submeshes.len() / source_sub * target_sub);
+                for rec in skin.submeshes.chunks_exact(source_sub) {
+                    recoded.extend_from_slice(&rec[0..16]); // id .. bone_start
+                    if target_sub == 48 {
+                        recoded.extend_from_slice(&[0u8; 4]); // bone_influence, padding
+                        recoded.extend_from_slice(&rec[16..28]); // center
+                        recoded.extend_from_slice(&[0u8; 12]); // sort center
+                        recoded.extend_from_slice(&rec[28..32]); // radius
+                    } else {
+                        recoded.extend_from_slice(&rec[20..32]); // center
+                        recoded.extend_from_slice(&rec[44..48]); // radius
+                    }
+                }
+                skin.submeshes = recoded;
+            }
+        }
         new_model.header = header;
         new_model.vertices = vertices;
         new_model.textures = textures;
